@@ -108,6 +108,9 @@ func (q *x) accepted(s stream, probe string, in []byte, consumed int, d codec, k
 func checkStream(q *x, s stream, val codec, want []byte) {
 	c := q.c
 	witness := map[string]any{"reference_encoding": hx(want)}
+	if len(want) < 200 {
+		c.Sample(map[string]any{"case": q.i, "structure": s.name, "reference_encoding": hx(want), "probes": "3 readers x (exact, followed); every truncation; single-byte changes"})
+	}
 	// 1. encoder
 	var enc bytes.Buffer
 	var err error
